@@ -87,11 +87,20 @@ Section Dist.
     let diff := rn (upper - lower) in
     rn (rn (rn (bpow radix2 (-32) * rn (IZR k)) * diff) + lower).
   Definition pcg_float_hi (lower upper : R) : R := rn (rn (upper - lower) + lower).
-  (* scale = (u - l) / T(g.max() - g.min());  l + (g() - g.min()) * scale  with G = pcg32 *)
+  (* uniform_real_distribution<T>::operator()(G&) with G = pcg32 (g.min() = 0, g.max() = 2^32-1), after repair
+     (build/handoff/C07/fix-1): the sample is normalised first,
+       range = T(g.max() - g.min());  l + ((g() - g.min()) / range) * (u - l) *)
   Definition uniform_real (l u : R) (k : Z) : R :=
+    rn (l + rn (rn (rn (IZR k) / rn (IZR 4294967295)) * rn (u - l))).
+  Definition uniform_real_hi (l u : R) : R := rn (l + rn (u - l)).
+  (* the code before the repair: scale = (u - l) / T(g.max() - g.min());  l + (g() - g.min()) * scale.
+     For a width below about 2^-94 the scale is a denormal whose rounding error is multiplied by up to 2^32:
+     only the weak bound uniform_real_old_hi (the formula itself at the largest sample) holds, and values
+     exceed u by up to a third (ModelB32.b_uniform_old_refuted) *)
+  Definition uniform_real_old (l u : R) (k : Z) : R :=
     let scale := rn (rn (u - l) / rn (IZR 4294967295)) in
     rn (l + rn (rn (IZR k) * scale)).
-  Definition uniform_real_hi (l u : R) : R :=
+  Definition uniform_real_old_hi (l u : R) : R :=
     rn (l + rn (rn (IZR 4294967295) * rn (rn (u - l) / rn (IZR 4294967295)))).
 End Dist.
 
